@@ -140,6 +140,8 @@ def run(tier, seed):
     rs = [gen.random_scenario(rnd, {"meta", "ctl", "dyn", "rich"}, nclauses=3, depth=rnd.choice([2, 3])) for _ in range(n)]
     for i in range(0, n, 4000):
         chk.machine_family("random-meta-%d" % (i // 4000), rs[i:i + 4000], features=features)
+    SG = gen.scale_groups()
+    chk.machine_family("scale-call-N-and-deep-findall", SG["calln"] + SG["findall"], {"budget_extra": 20000000, "must_complete": True}, features=features, max_steps=30000)
     need = ["DoCallN", "DoOnce", "DoFindallStart", "DoFindallCollect", "DoFindallEnd", "DoFindallEndFail", "DoEq", "DoNeq", "DoCommit"]
     missing = [e for e in need if not chk.events.get(e)]
     if missing:
